@@ -1041,6 +1041,15 @@ def op_evolve(w, s):
         md = [int(min(float(m), x)) for x in src.bond_dims_exact] + [int(m)]
         md[0] = max(md[0], 1)
         src.compress_config.max_dims = np.array([max(1, v) for v in md], dtype=int)
+    if method == "tdrk4":
+        # propagate-and-compress canonicalises H^k psi: a state (nearly) annihilated by H is refused loudly (zero states cannot be canonicalised)
+        y = w.tens(e).astype(complex)
+        n0 = float(np.linalg.norm(y))
+        for _k in range(4):
+            y = H @ y
+            if float(np.linalg.norm(y)) < 1e-10 * hn ** (_k + 1) * n0:
+                w.stats.probes["pc_kernel_state_skipped"] += 1
+                return "skipped"
     if s.get("prep") and len(src.node_list) > 1:
         # "another holder" brings the state to its minimal bond dimensions first (value preserving)
         src.canonicalise()
